@@ -103,7 +103,7 @@ func TestC16(t *testing.T) {
 
 func stressC16(t *testing.T, r *ev.Run) {
 	opsN := ev.Pick(3000, 60000)
-	reps := ev.Pick(2, 8)
+	reps := ev.Pick(2, 6)
 	for rep := 0; rep < reps; rep++ {
 		pol := []string{"", "lru", "lfu", "tinylfu"}[rep%4]
 		journal(fmt.Sprintf("C16 stress rep=%d policy=%q", rep, pol))
